@@ -258,7 +258,8 @@ def run(case: dict[str, Any]) -> dict[str, Any]:
                 if i < len(res_b):
                     rows = res_b[i]["rows"]
                     got = [[kv[1] for kv in r["v"]] for r in rows] if rows and isinstance(rows[0], dict) else rows
-                    if got != ok_row:
+                    keys = [[kv[0] for kv in r["v"]] for r in rows] if rows and isinstance(rows[0], dict) else None
+                    if got != ok_row or (keys is not None and keys != [["status"]]):
                         violation = v_("nop-result", "a statement matching a nop pattern returns the one-row success status", {"statement": stmts[i], "result": res_b[i]})
                         break
             if violation is None:
